@@ -131,6 +131,51 @@ class Reader:
         return self._bands[i - 1]
 
 
+class _Missing(OSError):
+    pass
+
+
+def _install_readers(CC, files):
+    """rasterio_open of check_configuration = stub reader over `files`, restricted to the paths in the returned set `present`"""
+    import logging
+    logging.disable(logging.CRITICAL)
+    present = set(files)
+
+    def ro(p, *a, **k):
+        if p not in present or p not in files:
+            raise _Missing('cannot open %r' % (p,))
+        return files[p]
+    CC.rasterio_open = ro
+    return present
+
+
+def _concrete_section(cfg):
+    """the same input section with concrete well-formed scalar values (paths kept)"""
+    out = {"input": {}}
+    for side, d in cfg["input"].items():
+        o = {}
+        for k, v in d.items():
+            if isinstance(v, str) or v is None:
+                o[k] = v
+            elif k == 'disp':
+                o[k] = [-1, 1]
+            elif k == 'nodata':
+                o[k] = -9999
+        out["input"][side] = o
+    return out
+
+
+def _history_unreadable(CC, cfg, files, present):
+    """check the section once while none of its files can be opened: it must be refused; afterwards the files exist"""
+    present.clear()
+    try:
+        CC.check_input_section(_concrete_section(cfg)); refused = False
+    except Exception:      # noqa
+        refused = True
+    present.update(files)
+    return refused
+
+
 def input_section(mode='int', aux='none', cap=30, block=()):
     """check_input_section with stub readers.  mode: 'int' (left [min,max] symbolic ints, right none), 'grid' (left grid, right none),
     'grids' (left and right grids), 'int-right-int' / 'int-right-grid' (malformed), 'grid-count' (wrong band count).
@@ -194,17 +239,10 @@ def input_section(mode='int', aux='none', cap=30, block=()):
                     files['%s_%s.tif' % (side, kind)] = Reader(aw, ah)
                     cfg["input"][side][kind] = '%s_%s.tif' % (side, kind)
                     conds += [aw.t == w0.t, ah.t == h0.t]
-        CC.rasterio_open = lambda p, *a, **k: files[p]
-        CC.rasterio_can_open_mandatory = lambda p: p in files
-        CC.rasterio_can_open = lambda p: True if (p == "none" or p is None) else (p in files)
-        # the schemas captured the original predicates at import time: rebuild them with the stubs
-        for sch in (CC.input_configuration_schema, CC.input_configuration_schema_left_disparity_grids_right_none,
-                    CC.input_configuration_schema_left_disparity_grids_right_grids):
-            for side in ('left', 'right'):
-                for k, v in list(sch[side].items()):
-                    if hasattr(v, 'expected_data'):
-                        v.expected_data = tuple(CC.rasterio_can_open_mandatory if getattr(e, '__name__', '') == 'rasterio_can_open_mandatory'
-                                                else (CC.rasterio_can_open if getattr(e, '__name__', '') == 'rasterio_can_open' else e) for e in v.expected_data)
+        # only the reader is a stub: the real rasterio_can_open(_mandatory) predicates run (they call the module's rasterio_open)
+        present = _install_readers(CC, files)
+        # history: the same paths were checked before in this process while they could not be opened (refused), then the files appear
+        hist = _history_unreadable(CC, cfg, files, present)
         snap = copy.deepcopy({k: {kk: (vv if isinstance(vv, (str, type(None))) else '<v>') for kk, vv in v.items()} for k, v in cfg["input"].items()})
         try:
             out = CC.check_input_section(cfg)
@@ -214,7 +252,18 @@ def input_section(mode='int', aux='none', cap=30, block=()):
         except Exception as e:      # noqa
             accepted = False
         well = z3.And(*conds)
-        props = [("input-section-accepted-iff-documented-form", well if accepted else z3.Not(well))]
+        props = [("input-section-accepted-iff-documented-form", well if accepted else z3.Not(well)),
+                 ("unreadable-paths-refused-before-the-files-exist", z3.BoolVal(hist))]
+        # ... and once the files are gone again the same section is refused
+        present.clear()
+        try:
+            CC.check_input_section(_concrete_section(cfg)); gone_ok = False
+        except S.Unsupported:
+            raise
+        except Exception:      # noqa
+            gone_ok = True
+        present.update(files)
+        props.append(("unreadable-paths-refused-after-the-files-are-gone", z3.BoolVal(gone_ok)))
         if accepted:
             o = out["input"]
             props.append(("defaults-completed-and-values-kept", z3.BoolVal(
@@ -222,11 +271,11 @@ def input_section(mode='int', aux='none', cap=30, block=()):
                 and "disp" in o["right"] and o["left"]["img"] == 'left.tif')))
         col.check_path(props, label=('acc' if accepted else 'rej') + str(len(EX.trace)), extra=ex,
                        witnesses=[("an-accepted-input-exists", z3.BoolVal(accepted))] if mode not in ('int-right-int', 'int-right-grid') else [])
-        info['fn'] = instr.fn_hash(CC.check_input_section, CC.check_images, CC.check_image_dimension, CC.check_disparities_from_input)
+        info['fn'] = instr.fn_hash(CC.check_input_section, CC.check_images, CC.check_image_dimension, CC.check_disparities_from_input, CC.rasterio_can_open_mandatory, CC.rasterio_can_open)
     res, stats = explore(h, max_paths=3000)
     return col.result(stats, functions=info.get('fn', {}),
                       bounds={'mode': mode, 'auxiliary rasters': aux, 'sizes': '1..4096 symbolic', 'integers': '|n| <= 4096', 'grids': '2x2 symbolic float32'},
-                      stubs=['rasterio_open / rasterio_can_open(_mandatory) = stub readers with symbolic width/height/count and symbolic grid bands ("readable by rasterio" is outside the claim)'])
+                      stubs=['rasterio_open = stub reader with symbolic width/height/count and symbolic grid bands, raising for paths that do not exist ("readable by rasterio" is outside the claim); the real rasterio_can_open(_mandatory) predicates run; history: every section is checked once before its files exist and once after they are gone'])
 
 
 def replay_input(cex):
@@ -262,15 +311,17 @@ def replay_input(cex):
                 aw, ah = g('%s_%s_w' % (side, kind), w0), g('%s_%s_h' % (side, kind), h0)
                 files['%s_%s.tif' % (side, kind)] = Reader(aw, ah); cfg["input"][side][kind] = '%s_%s.tif' % (side, kind)
                 well = well and aw == w0 and ah == h0
-    CC.rasterio_open = lambda p, *a, **k: files[p]
-    CC.rasterio_can_open_mandatory = lambda p: p in files
-    CC.rasterio_can_open = lambda p: True if (p == "none" or p is None) else (p in files)
-    for sch in (CC.input_configuration_schema, CC.input_configuration_schema_left_disparity_grids_right_none, CC.input_configuration_schema_left_disparity_grids_right_grids):
-        for side in ('left', 'right'):
-            for k, vv in list(sch[side].items()):
-                if hasattr(vv, 'expected_data'):
-                    vv.expected_data = tuple(CC.rasterio_can_open_mandatory if getattr(e, '__name__', '') == 'rasterio_can_open_mandatory'
-                                             else (CC.rasterio_can_open if getattr(e, '__name__', '') == 'rasterio_can_open' else e) for e in vv.expected_data)
+    present = _install_readers(CC, files)
+    hist = _history_unreadable(CC, cfg, files, present)
+    if cex.get('name', '').startswith('unreadable-paths-refused-before'):
+        return {'violates': not hist, 'detail': 'an input section whose files cannot be opened is %s' % ('refused' if hist else 'accepted')}
+    if cex.get('name', '').startswith('unreadable-paths-refused-after'):
+        present.clear()
+        try:
+            CC.check_input_section(_concrete_section(cfg)); gone = False
+        except Exception:      # noqa
+            gone = True
+        return {'violates': not gone, 'detail': 'an input section whose files were removed is %s' % ('refused' if gone else 'accepted')}
     try:
         CC.check_input_section(copy.deepcopy(cfg)); acc = True
     except Exception as e:      # noqa
